@@ -607,14 +607,7 @@ def partial_struct_arg(sig, call):
 
 
 def finding_key(sig, call, outs=None):
-    """known-finding class of a disagreement, or None"""
-    if partial_struct_arg(sig, call) and outs is not None:
-        # narrow: nothing but the bytes received by the callee (and a struct echoed back) may differ
-        same = all(o.get("exc") == outs[0].get("exc") and o.get("errno") == outs[0].get("errno")
-                   and o.get("mem") == outs[0].get("mem") and len(o.get("rec", "")) == len(outs[0].get("rec", ""))
-                   for o in outs)
-        if same and outs[0].get("exc") is None:
-            return "partial_struct_init"
+    """known-finding class of a disagreement, or None (no open finding)"""
     return None
 
 
@@ -734,8 +727,7 @@ def evaluate_batch(ctx, batch, asan):
             ctx.nontrivial(("agg", sig["res"], sig["args"], call["args"]))
         # ---- correspondence with the model
         if partial_struct_arg(sig, call):
-            ctx.hist("model", "unmodelled")       # unmentioned fields are unspecified
-            continue
+            ctx.hist("struct_init", "partial")      # regression for the fixed finding partial_struct_init
         try:
             if sig.get("variadic"):
                 ts = clist(["(Prim (PI 4 true))", "(Ptr %s)" % item_lit("char")])
